@@ -2648,10 +2648,12 @@ func (p *Parser) testClause(s *Stmt) {
 		p.followErrExp(tc.Left, dblLeftBrack)
 	}
 	tc.Right = p.pos
+	// Leave the nested state before reading past "]]", so that a newline
+	// following it reads any heredocs which were pending before "[[".
+	p.postNested(old)
 	if _, ok := p.gotRsrv("]]"); !ok {
 		p.matchingErr(tc.Left, dblLeftBrack, dblRightBrack)
 	}
-	p.postNested(old)
 	s.Cmd = tc
 }
 
